@@ -235,12 +235,14 @@ def reference_cluster_waveforms(R, sc, stemplates, T, nsw, nc):
 
 def pca_projection_ok(waveforms, got, rtol=2e-3):
     """Are `got` (n, nc, 3) the projections of each waveform onto the three leading principal
-    components of each channel, up to the sign of each component? Returns True / False / None
-    (None = eigenvalue gaps too small to decide)."""
+    components of each channel, up to the sign of each component? Every component whose eigenvalue
+    is separated from its neighbours is judged on its own (with two waveforms only the first one
+    is); returns True / False / None (None = no component could be decided)."""
     X = np.asarray(waveforms, dtype=np.float64)
     n, nsw, nc = X.shape
     if n < 2 or nsw < 3:
         return None
+    decided = 0
     for ch in range(nc):
         x = X[:, :, ch]
         cov = np.cov(x, rowvar=0)
@@ -249,6 +251,10 @@ def pca_projection_ok(waveforms, got, rtol=2e-3):
         vals = vals[order]
         vecs = vecs[:, order]
         top = max(abs(vals[0]), 1e-300)
+        if top < 1e-10 * max(float(np.abs(x).max()), 1e-300) ** 2:
+            continue    # (numerically) identical waveforms on this channel: no component defined
+        proj = x @ vecs[:, :3]  # (n, 3)
+        scale = max(float(np.abs(proj).max()), 1e-300)
         for i in range(3):
             gaps = []
             if i > 0:
@@ -256,12 +262,10 @@ def pca_projection_ok(waveforms, got, rtol=2e-3):
             if i + 1 < len(vals):
                 gaps.append(vals[i] - vals[i + 1])
             if min(gaps) < 1e-4 * top:
-                return None
-        proj = x @ vecs[:, :3]  # (n, 3)
-        scale = max(float(np.abs(proj).max()), 1e-300)
-        for i in range(3):
+                continue
+            decided += 1
             a = np.asarray(got[:, ch, i], dtype=np.float64)
             b = proj[:, i]
             if not (np.all(np.abs(a - b) <= rtol * scale) or np.all(np.abs(a + b) <= rtol * scale)):
                 return False
-    return True
+    return True if decided else None
